@@ -1,7 +1,7 @@
 (* C17 — Expiry removes only event keys, wholly, and only after the TTL.
    Property theorems only: each is closed by `exact <lemma>` and followed by Print Assumptions. *)
 From KB Require Import Base.Cases Model.Coder Model.CompactSys Model.C07Cases Model.C17Cases
-  Proofs.Coder Proofs.CompactSafe Proofs.CompactWf Proofs.CompactPass Proofs.CompactExpiry.
+  Proofs.Coder Proofs.CompactSafe Proofs.CompactWf Proofs.CompactPass Proofs.CompactExpiry Proofs.CompactTtl.
 Local Open Scope N_scope.
 
 (* C17_only_events + C17_not_young, scanner path, at full strength, for every store, mark queue, wall time,
@@ -131,12 +131,56 @@ Theorem C17_memkv_ttl_refuted :
 Proof. vm_compute. repeat split. Qed.
 Print Assumptions C17_memkv_ttl_refuted.
 
-(* the executable oracle accepts what the model produces for the TTL-choice cases (the scanner and engine-TTL
-   cases of the oracle are not covered by a soundness lemma) *)
+(* the executable oracle accepts what the model produces: the TTL-choice cases *)
 Theorem C17_oracle_sound_ttl_choice_partial : forall prefix ettl k ttls,
   c17_check (KTtlChoice prefix ettl k ttls) = true -> c17_oracle (KTtlChoice prefix ettl k ttls) = None.
 Proof. exact c17_oracle_sound_ttl_choice. Qed.
 Print Assumptions C17_oracle_sound_ttl_choice_partial.
+
+(* ... the engine-TTL cases, dump clause: on a history the model reproduces (every dump equals the model's store
+   at that time; wall times non-decreasing) every record missing from a dump belongs to an Event key and, on
+   Badger, its latest write is at least ttl old - the oracle reports nothing on Badger and nothing but the
+   signature of the known finding C17-F2 on memkv *)
+Theorem C17_oracle_sound_engine_ttl_dumps : forall e prefix ttl_ms evs V,
+  mono 0 evs -> ttl_run e prefix ttl_ms (mkTS [] []) evs = Some V ->
+  ttl_oracle e prefix ttl_ms [] evs = None \/ (e = EMem /\ ttl_oracle e prefix ttl_ms [] evs = Some 2).
+Proof. exact ttl_oracle_sound. Qed.
+Print Assumptions C17_oracle_sound_engine_ttl_dumps.
+
+(* ... the whole engine-TTL case, final Get / Create probes included, when the store the history ends in
+   satisfies the relaxed well-formedness (C07) and the probes' revisions are above everything stored *)
+Theorem C17_oracle_sound_engine_ttl : forall e prefix ttl_ms evs fin,
+  mono 0 evs ->
+  (forall V, ttl_run e prefix ttl_ms (mkTS [] []) evs = Some V ->
+             wfd V /\ fresh V 1000000 /\ 1000000 + N.of_nat (length fin) <= max_rev) ->
+  c17_check (KEngineTtl e prefix ttl_ms evs fin) = true ->
+  c17_oracle (KEngineTtl e prefix ttl_ms evs fin) = None \/
+  (e = EMem /\ c17_oracle (KEngineTtl e prefix ttl_ms evs fin) = Some 2).
+Proof. exact c17_engine_ttl_sound. Qed.
+Print Assumptions C17_oracle_sound_engine_ttl.
+
+(* ... the scanner cases, the two tests the oracle applies to an expiry removal. The code pops marks from a
+   queue; the oracle keeps every mark ever pushed and takes the largest revision among those at least ttl old:
+   the queue stays within the oracle's marks and the timeout revision is 0 or at most the oracle's bound *)
+Theorem C17_oracle_marks : forall evp sup ttl now R lo hi q d0 marks,
+  incl q marks ->
+  let '(q', tr, d) := scanner_compact evp sup ttl now R lo hi q d0 in
+  incl q' (marks ++ [(R, now)]) /\
+  (tr = 0 \/ exists m, old_mark_rev ttl now (marks ++ [(R, now)]) = Some m /\ tr <= m).
+Proof. exact scanner_marks. Qed.
+Print Assumptions C17_oracle_marks.
+
+(* hence every engine delete of scanner.Compact - any outcomes, any writers interleaved - is a compaction target
+   (C07's business) or targets a stored record that passes expiry_verdict's only-events and not-young tests *)
+Theorem C17_oracle_expiry_tests : forall prefix sup ttl now R lo hi q V oc marks,
+  incl q marks ->
+  let '(q', tr, d) := scanner_compact (events_prefix prefix) sup ttl now R lo hi q (init_d V oc) in
+  Forall (fun s => compaction_target R (ds_target s) \/
+                   (In (ds_target s) V /\ negb (is_event_key prefix (rkey (ds_target s))) = false /\
+                    exists m, old_mark_rev ttl now (marks ++ [(R, now)]) = Some m /\
+                              negb (rec_rev (ds_target s) <=? m) = false)) (d_trace d).
+Proof. exact scanner_expiry_tests. Qed.
+Print Assumptions C17_oracle_expiry_tests.
 
 (* ---------- non-vacuity ---------- *)
 Example C17_ex_run :
@@ -222,3 +266,29 @@ Example C17_ex_recreate_expires :
   let Vbad := sort_by rec_ltb (map t_rec (ts_store bad)) in
   get_at Vbad max_rev k_event = None /\ snd (do_create Vbad k_event [3] 8) = WFalse.
 Proof. vm_compute. repeat split. Qed.
+
+(* C17_oracle_sound_engine_ttl's hypotheses are satisfiable: the history above, ending in the lone tombstone *)
+Example C17_ex_engine_ttl_sound_applies :
+  let evs := [TCreate 0 k_event [1] 5; TDelete 150 k_event 6; TCreate 300 k_event [2] 7; TDump 2900 [RVer k_event 6 tombstone]] in
+  let fin := [(k_event, None, WOk)] in
+  mono 0 evs /\
+  (forall V, ttl_run EBadger pfx 2000 (mkTS [] []) evs = Some V ->
+             wfd V /\ fresh V 1000000 /\ 1000000 + N.of_nat (length fin) <= max_rev) /\
+  c17_check (KEngineTtl EBadger pfx 2000 evs fin) = true /\
+  c17_oracle (KEngineTtl EBadger pfx 2000 evs fin) = None.
+Proof.
+  cbv zeta. split; [cbn; repeat split; lia|]. split; [|split; vm_compute; reflexivity].
+  intros V HV. vm_compute in HV. injection HV as <-. split; [|split; [|vm_compute; discriminate]].
+  - split; [|split].
+    + intros k r d r' d' [H|[]]. discriminate H.
+    + intros k r v v' [H|[]] [H'|[]]. congruence.
+    + intros k. split; [|split].
+      * intros r [H|[]]. discriminate H.
+      * intros r [H|[]]. discriminate H.
+      * intros _. destruct (beqb k k_event) eqn:E.
+        -- apply beqb_eq in E. subst k. right. exists 6. split; [left; reflexivity|]. intros r' v' [H|[]]. inversion H; subst. lia.
+        -- left. intros r v [H|[]]. inversion H; subst. rewrite beqb_refl in E. discriminate.
+  - split; [vm_compute; discriminate|]. split.
+    + intros k r v [H|[]]. inversion H; subst. lia.
+    + intros k r d [H|[]]. discriminate H.
+Qed.
